@@ -47,4 +47,12 @@ CLAIMS['C10'] = {
             'O10.2 (three-octet CRC line over all 2^24 values) and O10.4 (label emitted per object kind; every foreign label rejected by parse) are decided on the real code with CrossHair.',
     'note': 'NOT decided here (regular expressions on symbolic text are outside this tool, probe P14): armored text -> object round trip, CRLF / surrounding text, armor header lines, the CRC-mismatch warning; base64 is C code. '
             'The claim is therefore the checksum, the line geometry and the label discipline, not the whole envelope.'}
+CLAIMS['C19'] = {
+    'technique': 'bounded symbolic execution of the real PGPKeyring index code over symbolic load/unload histories and creation orders (CrossHair+z3)',
+    'text': 'The real PGPKeyring (alias maps, re-sort on unload, lookup, membership, fingerprints, len) is executed on histories whose operations and key creation times are symbolic: '
+            'every 3-step (quick) / 4-step (thorough) history over three keys in three sharing universes (shared name / e-mail / comment, subkeys, public+private halves), and every 5-step '
+            'history over two name-sharing keys. After each history the index must report exactly the loaded fingerprints, and every fingerprint (also spaced), key id, short id, name, comment and e-mail '
+            'must select a loaded key carrying it, identifiers of unloaded keys nothing. Path trees are exhausted per partition; bounded model checking.',
+    'note': 'Trusted: the duck-typed PGPKey stand-ins (fingerprint/created/is_public/userids/subkeys as attributes), CrossHair. Outside: loading from blobs/files (key parsing), selection by message/signature, longer histories. '
+            'One genuine defect repaired (fix: 0ed67fc).'}
 NOT_APPLICABLE = {p: NB for p in ['C%02d' % i for i in range(1, 21)] if p not in CLAIMS}
